@@ -231,8 +231,10 @@ Definition splineAt (s : st) (d : nat) (q : Q) : tag :=
   else if extrap s then Spl d KExt q else Spl d KNan q.
 
 (** one side of _evaluateOutOfBounds *)
-Definition side (s : st) (m : mode) (edge : Q) (mask : list bool) (pts : list Q) (acc : list tag)
+Definition side (s0 s : st) (m : mode) (edge : Q) (mask : list bool) (pts : list Q) (acc : list tag)
   : st * res (list tag) :=
+  (* s0: the state when _evaluateOutOfBounds was entered -- its spline answers the whole call;
+     s: the current state (direct evaluations may have triggered an adaptive update) *)
   if existsb (fun b => b) mask then
     match m with
     | ERROR => (s, Err EValue)
@@ -240,8 +242,8 @@ Definition side (s : st) (m : mode) (edge : Q) (mask : list bool) (pts : list Q)
               | (s', Ok ts) => (s', Ok (scatter mask ts acc))
               | (s', Err e) => (s', Err e)
               end
-    | CONSTANT => (s, Ok (scatter mask (map (fun _ => splineAt s 0 edge) (select mask pts)) acc))
-    | FUNCTION => (s, Ok (scatter mask (map (splineAt s 0) (select mask pts)) acc))
+    | CONSTANT => (s, Ok (scatter mask (map (fun _ => splineAt s0 0 edge) (select mask pts)) acc))
+    | FUNCTION => (s, Ok (scatter mask (map (splineAt s0 0) (select mask pts)) acc))
     end
   else (s, Ok acc).
 
@@ -253,8 +255,8 @@ Definition evalOOB (s : st) (pts : list Q) : st * res (list tag) :=
     let upper := map (fun q => Qle_bool (rmax s) q) pts in
     let acc0 := map (fun q => if Qle_bool q (rmin s) || Qle_bool (rmax s) q then Uninit
                               else splineAt s 0 q) pts in
-    match side s (mlo s) (rmin s) lower pts acc0 with
-    | (s1, Ok acc1) => side s1 (mhi s1) (rmax s1) upper pts acc1
+    match side s s (mlo s) (rmin s) lower pts acc0 with
+    | (s1, Ok acc1) => side s s1 (mhi s1) (rmax s) upper pts acc1
     | r => r
     end.
 
